@@ -12,6 +12,7 @@ import (
 
 	"verif/internal/corpus"
 	"verif/internal/lab"
+	"verif/internal/model/jsonmap"
 	"verif/internal/spec"
 	"verif/internal/values"
 )
@@ -100,8 +101,18 @@ func deliver(c *Ctx, ch *lab.Child, gs *srv, t *rpcTarget, caseID string, req, r
 		c.R.Harness("cannot read handler request: " + uerr.Error())
 		return true
 	}
-	if !proto.Equal(got, req) {
-		c.R.Violate(caseID, "request-changed", diffFields(req, got), rp(map[string]any{"handler_saw": fmt.Sprint(got)}))
+	// JSON transport: the documented losses of the mapping (timestamp truncation, empty-message
+	// presence under OMIT/NULL) apply; binary transport must be exact
+	var wantReq, wantResp proto.Message = req, resp
+	if strings.HasPrefix(ct, "application/json") {
+		wantReq, wantResp = jsonmap.Norm(req), jsonmap.Norm(resp)
+	}
+	var gotN proto.Message = got
+	if strings.HasPrefix(ct, "application/json") {
+		gotN = jsonmap.Norm(got)
+	}
+	if !proto.Equal(gotN, wantReq) {
+		c.R.Violate(caseID, "request-changed", diffFields(wantReq, got), rp(map[string]any{"handler_saw": fmt.Sprint(got)}))
 	}
 	if out.Ret["err"] != nil {
 		c.R.Violate(caseID, "client-error", fmt.Sprint(oasM(out.Ret["err"])["text"]), rp(map[string]any{"client_error": out.Ret["err"]}))
@@ -112,8 +123,12 @@ func deliver(c *Ctx, ch *lab.Child, gs *srv, t *rpcTarget, caseID string, req, r
 		c.R.Harness("cannot read client response: " + uerr.Error())
 		return true
 	}
-	if !proto.Equal(back, resp) {
-		c.R.Violate(caseID, "response-changed", diffFields(resp, back), rp(map[string]any{"client_got": fmt.Sprint(back)}))
+	var backN proto.Message = back
+	if strings.HasPrefix(ct, "application/json") {
+		backN = jsonmap.Norm(back)
+	}
+	if !proto.Equal(backN, wantResp) {
+		c.R.Violate(caseID, "response-changed", diffFields(wantResp, back), rp(map[string]any{"client_got": fmt.Sprint(back)}))
 	}
 	c.R.Decided(caseID)
 	return true
